@@ -27,6 +27,13 @@ def run(c):
         c.cov["traces_validated_against_impl"] += 1
         return
     m = c.mc("BeaconStore", "BeaconStoreMC.%s.cfg" % c.tier, workers=8, timeout=2400)
+    # the loop test of the code before the fix (local AS left out), shown in the model only
+    dev = c.tlc("BeaconStore", "BeaconStoreDev.cfg", workers=4, timeout=1200)
+    if "SentNoLoop" in dev.inv_violated:
+        c.notes.append("model-only counterexample (expected): a loop test that leaves the local AS out propagates a "
+                       "beacon that already contains the local AS (fixed in /repo)")
+    else:
+        raise vlib.Infra("BeaconStoreDev.cfg: expected counterexample not found: %s" % dev.out[-800:])
     scn = os.path.join(c.scratch, "scn.ndjson")
     ncases = 0
     with open(scn, "w") as f:
@@ -88,6 +95,6 @@ def run(c):
         "signatures are real ECDSA signatures over the real segment encoding; a 'bad' entry is signed with another key",
         "the Extender is a no-op and senders record (egress, segment): what is sent where is observed, not the extension (C23)",
         "stored = present in the sqlite beacon DB (queried by segment id) after HandleBeacon returned; every case has its own segment id",
-        "the loop clause is read as DESIGN.md does (beacon ASes + neighbour); a beacon that already contains the local AS is "
-        "stored and propagated by the code - reported as MODEL-DRIFT prop:loop-through-the-local-AS, not as a violation",
+        "the loop clause is judged on the AS sequence of the propagated beacon: the received beacon's ASes, the local AS "
+        "(appended by the extender), the neighbour of the egress interface",
     ]
